@@ -78,3 +78,13 @@ class L_aff_conj:
     args = {"U": R6, "Ui": R6, "T": R6, "p": P2}
     requires = [lambda U, Ui: spec.mul(Ui, U) == spec.ID]
     statement = lambda U, Ui, T, p: spec.pt(spec.mul(U, spec.mul(T, Ui)), spec.pt(U, p)) == spec.pt(U, spec.pt(T, p))
+
+
+@lemma("L-reuse-cancel", props=["C01", "C06", "C16"])
+class L_reuse_cancel:
+    """A reused glyph is drawn through the reuse affine A.  A gradient that was placed by W is
+    pre-multiplied by A^-1 (T = 'W then A^-1'); drawn through A it is placed by W again."""
+
+    args = {"A": R6, "Ai": R6, "W": R6, "p": P2}
+    requires = [lambda A, Ai: spec.mul(A, Ai) == spec.ID]
+    statement = lambda A, Ai, W, p: spec.pt(A, spec.pt(spec.ltr(W, Ai), p)) == spec.pt(W, p)
